@@ -305,7 +305,7 @@ theorem reverse_map_range (n : Nat) (f : Nat → Nat) :
     simp [List.getElem_reverse]
 
 theorem getD_take_lt (l : List Nat) (n i : Nat) (h : i < n) : (l.take n).getD i 0 = l.getD i 0 := by
-  simp [List.getD_eq_getElem?_getD, List.getElem?_take, h]
+  simp [List.getD_eq_getElem?_getD, h]
 
 theorem quartiles_eq (c : Cfg) (hc : c.valid = true) (bucket : List Nat) (hb : bucket.length = 256) :
     quartiles c bucket = (Spec.Tlsh.kth (bucket.take c.buckets) (c.buckets / 4 - 1),
@@ -368,5 +368,71 @@ theorem tlsh_eq_spec (lcap : Nat → Nat) (c : Cfg) (hc : c.valid = true) (data 
       have h3 := gate_q3_pos hc wf.bklen h2'
       rw [h2']
       simp only [h3, ↓reduceIte, Except.map, Option.map, Bool.false_eq_true, digest_mkObj_eq lcap c hc data]
+
+/-! ### `distance` on two digests of one configuration = the reference `totalDiff` -/
+
+
+theorem pairDiff_eq4 : ∀ a < 4, ∀ b < 4, pairDiff a b = Spec.Tlsh.pairDiff a b := by decide +kernel
+
+theorem byteDiff_eq (x y : Nat) : byteDiff x y = Spec.Tlsh.byteDiff x y := by
+  unfold byteDiff Spec.Tlsh.byteDiff
+  have h4 : ∀ z : Nat, z % 4 < 4 := fun z => Nat.mod_lt _ (by decide)
+  rw [pairDiff_eq4 _ (h4 _) _ (h4 _), pairDiff_eq4 _ (h4 _) _ (h4 _), pairDiff_eq4 _ (h4 _) _ (h4 _),
+    pairDiff_eq4 _ (h4 _) _ (h4 _)]
+  simp [List.range, List.range.loop]
+
+theorem modDiff_eq (x y n : Nat) (hx : x < n) (hy : y < n) : Spec.Tlsh.modDiff x y n = diffmod y x n := by
+  unfold Spec.Tlsh.modDiff diffmod absDiff
+  rw [Nat.mod_eq_of_lt hx, Nat.mod_eq_of_lt hy]
+  split <;> split <;> simp <;> omega
+
+theorem qb_div : ∀ a < 16, ∀ b < 16, ((a <<< 4) ||| b) / 16 = a ∧ ((a <<< 4) ||| b) % 16 = b := by decide +kernel
+
+theorem map_swp8_inj (l1 l2 : List Nat) (h1 : ∀ x ∈ l1, x < 256) (h2 : ∀ x ∈ l2, x < 256) :
+    l1.map swp8 = l2.map swp8 ↔ l1 = l2 := by
+  constructor
+  · intro h
+    have := congrArg (List.map swp8) h
+    rwa [map_swp8_swp8 _ h1, map_swp8_swp8 _ h2] at this
+  · intro h; rw [h]
+
+theorem digest_parts {c : Cfg} {o : TObj} (h : ObjWF c o) :
+    (digest o).take c.chklen = o.checksum.map swp8 ∧ (digest o).getD c.chklen 0 = swp8 o.lvalue
+    ∧ (digest o).getD (c.chklen + 1) 0 = ((o.q1 <<< 4) ||| o.q2) ∧ (digest o).drop (c.chklen + 2) = o.code.reverse := by
+  have hl : (o.checksum.map swp8).length = c.chklen := by simp [h.cklen]
+  have e : digest o = o.checksum.map swp8 ++ (swp8 o.lvalue :: ((o.q1 <<< 4) ||| o.q2) :: o.code.reverse) := by
+    simp [digest]
+  refine ⟨?_, ?_, ?_, ?_⟩
+  · rw [e, List.take_append_of_le_length (by omega), ← hl, List.take_length]
+  · rw [e, List.getD_eq_getElem?_getD, List.getElem?_append_right (by omega), hl]; simp
+  · rw [e, List.getD_eq_getElem?_getD, List.getElem?_append_right (by omega), hl]; simp
+  · rw [e, ← hl, List.drop_append]
+    simp
+
+theorem spec_distance_eq {c : Cfg} {o1 o2 : TObj} (h1 : ObjWF c o1) (h2 : ObjWF c o2) (lv : Bool) :
+    Spec.Tlsh.distance c.chklen (digest o1) (digest o2) lv = headerDiff o1 o2 lv + bodyDiff o2.code o1.code := by
+  obtain ⟨a1, b1, c1, d1⟩ := digest_parts h1
+  obtain ⟨a2, b2, c2, d2⟩ := digest_parts h2
+  unfold Spec.Tlsh.distance headerDiff
+  simp only [a1, a2, b1, b2, c1, c2, d1, d2]
+  rw [← swp8_eq _ (swp8_lt _ h1.lv), ← swp8_eq _ (swp8_lt _ h2.lv), swp8_swp8 _ h1.lv, swp8_swp8 _ h2.lv,
+    (qb_div _ h1.q1 _ h1.q2).1, (qb_div _ h1.q1 _ h1.q2).2, (qb_div _ h2.q1 _ h2.q2).1, (qb_div _ h2.q1 _ h2.q2).2,
+    modDiff_eq _ _ _ h1.lv h2.lv, modDiff_eq _ _ _ h1.q1 h2.q1, modDiff_eq _ _ _ h1.q2 h2.q2]
+  have hck : (if o1.checksum.map swp8 = o2.checksum.map swp8 then 0 else 1) = (if o2.checksum ≠ o1.checksum then 1 else 0) := by
+    have hi := map_swp8_inj _ _ h1.cklt h2.cklt
+    by_cases h : o1.checksum = o2.checksum
+    · simp [h]
+    · have h' : ¬ o2.checksum = o1.checksum := fun e => h e.symm
+      have h'' : ¬ o1.checksum.map swp8 = o2.checksum.map swp8 := fun e => h (hi.mp e)
+      simp [h', h'']
+  have hbody : (List.zipWith Spec.Tlsh.byteDiff o1.code.reverse o2.code.reverse).sum = bodyDiff o2.code o1.code := by
+    rw [bodyDiff_comm]
+    unfold bodyDiff
+    rw [← List.reverse_zipWith (by rw [h1.codelen, h2.codelen]), List.sum_reverse]
+    congr 2
+    funext x y
+    exact (byteDiff_eq x y).symm
+  rw [hck, hbody]
+  omega
 
 end Proofs.Lemmas.Tlsh
